@@ -115,7 +115,7 @@ impl World {
             byron_attrs: vec![0xa0],
             // [0] and [2]: the same value with the same bytes; [3]: the same value decoded from a
             // non-minimal encoding (PlutusData keeps its original bytes: a different datum hash)
-            datums: vec![PlutusData::new_integer(&BigInt::from(7u64)), PlutusData::new_bytes(vec![0xd0; 70]), PlutusData::new_integer(&BigInt::from(7u64)), PlutusData::from_bytes(vec![0x18, 0x07]).unwrap()],
+            datums: vec![PlutusData::new_integer(&BigInt::from(7u64)), PlutusData::new_bytes(vec![0xd0; 70]), PlutusData::new_integer(&BigInt::from(7u64)), PlutusData::from_bytes(vec![0x18, 0x07]).unwrap(), PlutusData::new_bytes(vec![0xe1; 64])], // 4: a 64-byte datum no input carries
             cost_models: Costmdls::new(),
             cost_lists: BTreeMap::new(),
         };
@@ -1079,7 +1079,7 @@ pub fn ops_for(prop: &str) -> Vec<Op> {
             Op::Wd(0), Op::Wd(2), Op::Mint(0), Op::Mint(1), Op::Mint(3), Op::Proposal(0), Op::Donate,
             Op::Fee(0), Op::Fee(1), Op::Fee(2), Op::Fee(3), Op::Coll(1), Op::Meta, Op::RefIn(1), Op::RefIn(3),
             Op::WdAgain(0), Op::WdAgain(2), Op::Wd(4), Op::InAgain(0), Op::In(7, 0), Op::In(7, 1), Op::In(8, 0), Op::In(17, 0),
-            Op::Ttl, Op::Treasury, Op::MintAndOutput, Op::MetaJson, Op::ExtraDatum(1), Op::ExtraDatum(0), Op::MetaEmpty(0), Op::MetaEmpty(1),
+            Op::Ttl, Op::Treasury, Op::MintAndOutput, Op::MetaJson, Op::ExtraDatum(1), Op::ExtraDatum(0), Op::ExtraDatum(4), Op::MetaEmpty(0), Op::MetaEmpty(1),
             Op::In(18, 0), Op::Mint(6),
         ],
         // C16 looks at ordering and repetition in the built transaction: items that bring scripts,
@@ -1114,7 +1114,7 @@ pub fn core_ops_for(prop: &str) -> Vec<Op> {
             Op::Out(0), Op::Out(1), Op::Out(2), Op::Out(3), Op::Out(4),
             Op::Cert(0), Op::Cert(3), Op::Cert(7), Op::Cert(13), Op::Cert(20),
             Op::Wd(0), Op::Wd(2), Op::WdAgain(0), Op::Wd(4), Op::Mint(0), Op::Mint(1), Op::Mint(3), Op::Proposal(0), Op::Donate,
-            Op::Fee(0), Op::Fee(2), Op::Coll(1), Op::RefIn(3), Op::MintAndOutput, Op::ExtraDatum(1), Op::In(18, 0), Op::Mint(6),
+            Op::Fee(0), Op::Fee(2), Op::Coll(1), Op::RefIn(3), Op::MintAndOutput, Op::ExtraDatum(1), Op::ExtraDatum(4), Op::In(18, 0), Op::Mint(6),
         ],
         "C09" | "C10" => vec![
             Op::In(0, 0), Op::In(7, 0), Op::In(7, 1), Op::In(14, 0), Op::In(14, 2), Op::In(8, 0), Op::In(11, 0),
